@@ -4,6 +4,7 @@ CONSTANTS
   FixFinal = FALSE
   FixSpillMin = TRUE
   FixLeftId = TRUE
+  FixEmptyMerge = TRUE
   ShapeSet = "small"
   Sizes = {0, 1, 3, 10}
   Spills = {0, 1, 3, 6}
